@@ -14,6 +14,11 @@ import (
 type VCase struct {
 	Len   int   `json:"len"`   // View: content length. Prependable: capacity.
 	FromV bool  `json:"fromv"` // Prependable built by NewPrependableFromView
+	// FromV: the adopted view is a window of a larger buffer: Front bytes before
+	// it (as after TrimFront) and Spare bytes of capacity behind it (as a prefix
+	// slice of a receive buffer, or a view whose length was capped)
+	Front int `json:"front,omitempty"`
+	Spare int `json:"spare,omitempty"`
 	Kinds []int `json:"kinds"` // 0 TrimFront, 1 CapLength, 2 NextBytes, 3 ToVectorisedView / Prepend
 	Ns    []int `json:"ns"`
 }
@@ -74,10 +79,21 @@ func runPrep(c VCase) *evid.Failure {
 	var p buffer.Prependable
 	var model []byte // used part
 	free := c.Len
+	var backing []byte
 	if c.FromV {
-		v := buffer.NewView(c.Len)
+		if c.Front < 0 || c.Spare < 0 || c.Front > 64 || c.Spare > 64 {
+			return nil
+		}
+		backing = make([]byte, c.Front+c.Len+c.Spare)
+		for i := range backing {
+			backing[i] = poison
+		}
+		v := buffer.View(backing[c.Front : c.Front+c.Len])
 		for i := range v {
 			v[i] = byte(i + 1)
+		}
+		if c.Front+c.Spare > 0 {
+			evid.Label("prependable:adopted-window-of-a-larger-buffer")
 		}
 		p = buffer.NewPrependableFromView(v)
 		model = append([]byte(nil), v...)
@@ -128,6 +144,11 @@ func runPrep(c VCase) *evid.Failure {
 		if !bytes.Equal(p.View(), model) {
 			return evid.Failf("prepend-view", "step %d: View %v model %v", i, []byte(p.View()), model)
 		}
+		for j, b := range backing {
+			if (j < c.Front || j >= c.Front+c.Len) && b != poison {
+				return evid.Failf("prepend-outside", "step %d Prepend(%d): byte %d of the buffer the adopted view is a window of was written (window [%d,%d))", i, n, j, c.Front, c.Front+c.Len)
+			}
+		}
 	}
 	if granted >= 2 || (granted >= 1 && refused >= 1) {
 		evid.NonTrivialKey("prep", c.Len, c.FromV, fmt.Sprint(c.Ns))
@@ -157,6 +178,10 @@ func genV(rt *rapid.T) VCase {
 
 func genP(rt *rapid.T) VCase {
 	c := VCase{Len: rapid.IntRange(0, 64).Draw(rt, "cap"), FromV: rapid.IntRange(0, 5).Draw(rt, "fromv") == 0}
+	if c.FromV {
+		c.Front = rapid.SampledFrom([]int{0, 0, 1, 8, 20}).Draw(rt, "front")
+		c.Spare = rapid.SampledFrom([]int{0, 1, 8, 44}).Draw(rt, "spare")
+	}
 	n := rapid.IntRange(1, 8).Draw(rt, "nops")
 	for i := 0; i < n; i++ {
 		c.Ns = append(c.Ns, rapid.OneOf(rapid.IntRange(0, 8), rapid.IntRange(0, c.Len+2)).Draw(rt, "k"))
